@@ -262,6 +262,10 @@ func (g *c13Gen) tryStmt(inBlockWithContent bool) []*mj.Node {
 	case 1:
 		n.HasCatch = true
 		n.Catch = []*mj.Node{mj.Text("(caught)")}
+		if inBlockWithContent {
+			// the handler belongs to the block the try stands in: its content, not that of whatever failed below
+			n.Catch = append(n.Catch, mj.Text("(handler content:"), &mj.Node{K: "ycontent"}, mj.Text(")"))
+		}
 		g.labels["catch"] = true
 	default:
 		n.HasCatch = true
@@ -280,6 +284,19 @@ func (g *c13Gen) tryStmt(inBlockWithContent bool) []*mj.Node {
 		if g.marker {
 			// the catch body belongs to the template the try stands in: its blocks, not those of whatever failed
 			n.Catch = append(n.Catch, mj.Text("(catch sees "), &mj.Node{K: "yield", Name: "marker"}, mj.Text(")"))
+		}
+		if inBlockWithContent {
+			n.Catch = append(n.Catch, mj.Text("(handler content:"), &mj.Node{K: "ycontent"}, mj.Text(")"))
+		}
+		if n.Name != tv && g.n(0, 3, "catchVarReadElsewhere") == 0 {
+			// the handler itself never spells the variable: an included template reads it (variables are visible
+			// to what is included, so it must be bound)
+			n.Name = g.id("qzx")
+			g.decls = append(g.decls, n.Name)
+			seer := &mj.File{Path: "/inc/" + g.id("handler") + ".jet", Body: []*mj.Node{mj.Text("(seen from the included handler:"), mj.Print(mj.Call("isset", mj.Var(n.Name))), mj.Text(")")}}
+			g.p.Files = append(g.p.Files, seer)
+			n.Catch = []*mj.Node{mj.Text("(caught)"), {K: "include", E: mj.Str(seer.Path)}}
+			g.labels["catch-variable-only-read-by-an-included-template"] = true
 		}
 		g.labels["catch-with-variable"] = true
 		if g.n(0, 5, "catchfails") == 0 {
@@ -425,6 +442,9 @@ func judgeC13(c c13Case) (v core.Verdict) {
 		v.Label("destination-refused-the-output-of-a-try-body")
 		if got2.Err == nil {
 			v.Failf("%s: the destination refused the Write that handed over the output of a try body, yet Execute returned nil; the destination has %q of %q", desc, got2.Out, want.Out)
+		} else if !strings.HasPrefix(want.Out, got2.Out) {
+			// (the body did finish: its failed delivery is the destination's failure, not one a catch clause handles)
+			v.Failf("%s: the destination refused the Write that handed over the output of a try body; what it has received, %q, is not the beginning of %q", desc, got2.Out, want.Out)
 		}
 	}
 	return
